@@ -14,7 +14,7 @@ TRUST_COMMON = [
 def c05(tier, seed):
     e3 = build_e3()
     r = Result("model_checking",
-               "histories: every permutation of every subset (size<=k) of 13 types sharing one file, folded through the real merge() and exported through the real T::export() with the file compared to the reference model after every step plus re-export of every member; schedules: every interleaving of 12 (thorough 15) 2-3 thread programs of real export()/export_all() calls up to the preemption bound, final tree compared to the reference model. distinct = distinct final file contents / (program, final tree) pairs",
+               "histories: every permutation of every subset (size<=k) of 17 entries sharing one file (15 types, one of them spelling the file with `..`, and two further instantiations of a generic member whose arguments live in other files), folded through the real merge() and exported through the real T::export() (TS_RS_EXPORT_DIR unset; subsets <= 3 also with an absolute directory) with the file compared to the reference model after every step plus re-export of every member; schedules: every interleaving of 12 (thorough 15) 2-3 thread programs of real export()/export_all() calls up to the preemption bound, final tree compared to the reference model. distinct = distinct final file contents / (program, final tree) pairs",
                "explicit-state exploration of export histories + preemption-bounded stateless schedule exploration of the real exporter")
     k_pure, k_fs, bound = (5, 4, 2) if tier == "quick" else (6, 5, 3)
     m = run_sliced(e3, ["merge", "--max-pure", str(k_pure), "--max-fs", str(k_fs)])
@@ -37,7 +37,7 @@ def c05(tier, seed):
 def c06(tier, seed):
     e3 = build_e3()
     r = Result("model_checking",
-               "breadth-first search over histories of {export(T), export_all(T), export_all_to(T, spelling)} for 9 universe types (4 sharing a file, dependencies between them) x 7 settings of TS_RS_EXPORT_DIR (unset, relative, ./-prefixed, absolute, with `..`, trailing slash, through a symbolic link) x 3 initial directory contents; every state is reached by replaying its history on the real code from a fresh directory; states deduplicated on (model set, registry snapshot, directory tree); invariant in every state: tree == reference model of the set exported so far on top of the initial contents",
+               "breadth-first search over histories of {export(T), export_all(T), export_all_to(T, spelling)} for 12 universe entries (6 sharing a file, one of them spelling it with `..`; 2 sharing another; two instantiations of one generic; dependencies between them) x 7 settings of TS_RS_EXPORT_DIR (unset, relative, ./-prefixed, absolute, with `..`, trailing slash, through a symbolic link) x 3 initial directory contents; every state is reached by replaying its history on the real code from a fresh directory; states deduplicated on (model set, registry snapshot, directory tree); invariant in every state: tree == reference model of the set exported so far on top of the initial contents",
                "explicit-state BFS over export histories on the implementation")
     depth = 3 if tier == "quick" else 4
     args = ["bfs", "--depth", str(depth)]
@@ -76,7 +76,7 @@ def _only(merged, prop):
 
 
 GRAPH_RULE = ("dependency-graph corpus (50 root types: one per edge kind - field, inline, flatten, Option/Vec/array/tuple/map key/map value/Box, generic argument (plain, inlined, flattened, nested), parameter default, field/variant/container `as`, type override, struct tag, newtype/tuple structs, self-reference, cycle, 17 enums covering payload kinds x 4 representations x inline/skip/flatten) "
-              "x every assignment of run-time placements {default, d/, s.ts, d/x.ts, ../up/, d/e/, d/x.js.ts, d/../s.ts (a second spelling of s.ts)} to the type keys (quick 2304, thorough 15360 assignments) x base-directory spellings/entry points (quick 3: default, ./x/../out, through a symbolic link; thorough 8) x pre-existing contents (quick 1, thorough 3) x import-esm {off,on}; one real export_all/export_all_to per case; distinct = distinct (root, locations of reachable types)")
+              "x every assignment of run-time placements {default, d/, s.ts, d/x.ts, ../up/, d/e/, d/x.js.ts, d/../s.ts (a second spelling of s.ts)} to the 7 type keys (quick 15360, thorough 331776 assignments; assignments that agree on the types reachable from the root are one case - an export never looks at the others) x base-directory spellings/entry points (quick 5: default, ./x/../out, through a symbolic link, absolute TS_RS_EXPORT_DIR, trailing slash; thorough 8) x pre-existing contents (quick 2: unrelated files, stale files at the targets; thorough 3) x import-esm {off,on}; one real export_all/export_all_to per case; distinct = distinct (root, locations of reachable types)")
 
 
 def _graph(tier, prop):
@@ -143,7 +143,7 @@ def c08(tier, seed):
 def c13(tier, seed):
     e3 = build_e3()
     r = Result("model_checking",
-               "owned nondeterminism, explored exhaustively on the implementation: (a) order of the statements in every generated visit_dependencies body (hook H2): all permutations for bodies <= 5 statements, rotations+reversals above, for every corpus type (50 graph roots x 3 placement configurations, 9 universe types, 13 shared-file types), each run twice; (b) every order of every k-subset of universe roots exported with export_all (k=3 quick, 4 thorough) x forward/reversed visits; (c) every interleaving of 2-3 exporting threads up to the preemption bound (C05's scheduler). Oracle: identical trees and identical name/decl/export_to_string/dependency sets, equal to the reference model. distinct = distinct subjects",
+               "owned nondeterminism, explored exhaustively on the implementation: (a) order of the statements in every generated visit_dependencies body (hook H2): all permutations for bodies <= 5 statements, rotations+reversals above, for every corpus type (50 graph roots x 3 placement configurations, 9 universe types, 13 shared-file types), each run twice; (b) every order of every k-subset of universe roots (k=3 quick, 4 thorough) x every assignment of the entry points export() / export_all() to the roots (x forward/reversed visits when all use export_all); (c) every interleaving of 2-3 exporting threads up to the preemption bound (C05's scheduler). Oracle: identical trees and identical name/decl/export_to_string/dependency sets, equal to the reference model. distinct = distinct subjects",
                "exhaustive enumeration of visit orders, root orders and preemption-bounded thread schedules on the real exporter")
     args = ["determ"] + (["--thorough"] if tier == "thorough" else [])
     m = run_sliced(e3, args, slices=32)
